@@ -23,6 +23,7 @@ import (
 	"time"
 
 	_ "github.com/wader/fq/format/all"
+	"github.com/wader/fq/internal/ctxreadseeker"
 	"github.com/wader/fq/internal/ctxstack"
 	"github.com/wader/fq/internal/iox"
 	"github.com/wader/fq/pkg/interp"
@@ -801,6 +802,105 @@ func TestInterruptAfterEndedEvaluations(t *testing.T) {
 			if harness.Violate(t.Name(), sig, msg, sc) {
 				t.Errorf("[%s] %s", sig, msg)
 			}
+		}
+	}
+}
+
+// ---------------------------------------------------------------------------
+// (vi) ctxreadseeker: cancellation racing with reads and seeks
+//
+// fq wraps every opened file in ctxreadseeker with the running evaluation's
+// context.  A reader thread reads/seeks while another thread cancels the
+// context after a random number of yields.  Every call must return (no
+// deadlock whatever the timing), data returned before the cancellation took
+// effect must be the right bytes, and once a call has failed with the context
+// error no later call may return data.  (Seed C20-3: a check-then-send race in
+// callWait deadlocks the caller.)
+
+func TestCtxReadSeekerCancel(t *testing.T) {
+	rounds := harness.N(12000, 400000) / max(1, harness.E.NShards)
+	data := make([]byte, 4096)
+	for i := range data {
+		data[i] = byte(i*7 + 3)
+	}
+	seed := harness.SeedFor("TestCtxReadSeekerCancel")
+	for r := 0; r < rounds; r++ {
+		x := seed + uint64(r)*0x9e3779b97f4a7c15
+		next := func() uint64 { x ^= x << 13; x ^= x >> 7; x ^= x << 17; return x }
+		ctx, cancel := context.WithCancel(context.Background())
+		rs := ctxreadseeker.New(ctx, bytes.NewReader(data))
+		yields := int(next() % 40)
+		ops := 1 + int(next()%30)
+		type res struct {
+			sig, msg string
+			calls    int
+		}
+		done := make(chan res, 1)
+		go func() {
+			var out res
+			pos := int64(0)
+			failed := false
+			p := make([]byte, 16)
+			y := x ^ 0xabcdef
+			for i := 0; i < ops; i++ {
+				y ^= y << 13
+				y ^= y >> 7
+				y ^= y << 17
+				out.calls++
+				if y%3 == 0 {
+					target := int64(y>>8) % int64(len(data))
+					np, err := rs.Seek(target, io.SeekStart)
+					if err == nil {
+						if failed {
+							out.sig, out.msg = "ctxreadseeker:data-after-context-error", "Seek succeeded after an earlier call had failed with the context error"
+							break
+						}
+						if np != target {
+							out.sig, out.msg = "ctxreadseeker:seek", fmt.Sprintf("Seek(%d) returned %d", target, np)
+							break
+						}
+						pos = target
+					} else {
+						failed = true
+					}
+				} else {
+					k, err := rs.Read(p)
+					if k > 0 {
+						if failed {
+							out.sig, out.msg = "ctxreadseeker:data-after-context-error", "Read returned data after an earlier call had failed with the context error"
+							break
+						}
+						if !bytes.Equal(p[:k], data[pos:pos+int64(k)]) {
+							out.sig, out.msg = "ctxreadseeker:bytes", fmt.Sprintf("Read at %d returned %x want %x", pos, p[:k], data[pos:pos+int64(k)])
+							break
+						}
+						pos += int64(k)
+					}
+					if err != nil && err != io.EOF {
+						failed = true
+					}
+				}
+			}
+			done <- out
+		}()
+		for i := 0; i < yields; i++ {
+			runtime.Gosched()
+		}
+		cancel()
+		select {
+		case out := <-done:
+			harness.Count(harness.HashInts(60, seed, uint64(r)), out.calls >= 2, "ctxreadseeker-round")
+			if out.sig != "" {
+				if harness.Violate(t.Name(), out.sig, out.msg, map[string]any{"round": r, "yields": yields, "ops": ops}) {
+					t.Errorf("[%s] %s", out.sig, out.msg)
+				}
+			}
+		case <-time.After(20 * time.Second):
+			// the reader thread is blocked inside Read/Seek although the context is cancelled
+			if harness.Violate(t.Name(), "ctxreadseeker:deadlock", fmt.Sprintf("round %d: a Read/Seek that raced with the cancellation (after %d yields) has not returned for 20 s", r, yields), map[string]any{"round": r, "yields": yields, "ops": ops}) {
+				t.Errorf("ctxreadseeker deadlock in round %d", r)
+			}
+			return
 		}
 	}
 }
